@@ -30,6 +30,7 @@ func rulesC03(w *World, r *Report) {
 	for _, c := range []string{"int", "long", "double", "date", "bool"} {
 		w.ruleDecoderForms(r, "C03.R2 reader coverage", c)
 	}
+	w.ruleDateSpecUnit(r, "C03.R2 reader coverage")
 	w.ruleLenReader(r, "C03.R2 reader coverage", "string")
 	w.ruleLenReader(r, "C03.R2 reader coverage", "binary")
 	w.ruleLookAhead(r, "C03.R3 no dropped look-ahead")
@@ -37,6 +38,48 @@ func rulesC03(w *World, r *Report) {
 	w.ruleChunkBuffers(r, "C03.R5 chunk length governs the read size")
 	w.ruleLoopExits(r, "C03.R6 variable-length lists end on the terminator", true)
 	r.note("spec table digest %s", specDigest())
+}
+
+// ruleDateSpecUnit: the unit in which the date decoder interprets each form's
+// payload must be the specification's (x4a milliseconds, x4b minutes).
+func (w *World) ruleDateSpecUnit(r *Report, rule string) {
+	c := w.codecs()["date"]
+	if c == nil || c.Dec == nil {
+		r.undecided(rule, "date decoder", "-", "not found")
+		return
+	}
+	fd := w.flow(c.Dec)
+	forms, err := w.decForms(c.Dec, fd)
+	if err != nil {
+		r.undecided(rule, fnName(c.Dec), "-", err.Error())
+		return
+	}
+	want := map[int64]string{0x4a: "milliseconds", 0x4b: "minutes"}
+	for _, df := range forms {
+		if df.IsErr {
+			continue
+		}
+		tags, _ := df.Tags.Elems(4)
+		ret := df.Block.Instrs[len(df.Block.Instrs)-1].(*ssa.Return)
+		unit := "?"
+		if call, ok := ret.Results[0].(*ssa.Call); ok && call.Call.StaticCallee() != nil {
+			switch qualifiedFnName(call.Call.StaticCallee()) {
+			case "time.UnixMilli":
+				unit = "milliseconds"
+			case "time.Unix":
+				unit = "seconds"
+				if t := fd.term(call.Call.Args[0]); t.K == TBin && t.Op == token.MUL && t.B.K == TConst && t.B.C.Int64() == 60 {
+					unit = "minutes"
+				}
+			}
+		}
+		for _, t := range tags {
+			if want[t] == "" {
+				continue
+			}
+			r.add(rule, fmt.Sprintf("%s · unit of date form x%02x", fnName(c.Dec), t), df.Pos, unit == want[t], fmt.Sprintf("payload interpreted as %s; the grammar defines it as %s", unit, want[t]))
+		}
+	}
 }
 
 // ruleGetTagProtocol.
